@@ -125,6 +125,12 @@ def generate(rng, tier, idx):
         for _ in range(rng.choice([1, 1, 2])):
             chosen = rng.sample(glist, rng.randrange(0, len(glist) + 1)) if glist else []
             regen.append({'edits': [dict(e) for g_ in chosen for e in g_]})
+    if rng.random() < 0.3:
+        # files around and beyond the scripts' read-block sizes (64 KiB, 1 MiB): the scripts have their own reading code
+        fl = [t for t in g['tree'] if t.get('k', 'file') == 'file' and t['p'] != 'profiles/categories' and 'c' in t]
+        for t in rng.sample(fl, min(len(fl), rng.choice([1, 1, 2]))):
+            t.pop('c', None)
+            t['prng'] = [rng.getrandbits(32), rng.choice([65535, 65536, 65537, 90001, 131072, 131089, 150000, 1048575, 1048577])]
     return {'prop': ID, 'order_key': '%016x' % rng.getrandbits(64), 'tree': g['tree'],
             'roles': {'package_dirs': roles['package_dirs'], 'categories': roles['categories']},
             'dist': dist, 'mode': mode, 'edits': edits, 'regen': regen}
